@@ -180,6 +180,11 @@ fn check_pair(a: u16, b: u16, ea: Effects, eb: Effects) -> Result<(), String> {
     if (ea == eb) != (a == b) {
         return Err(format!("==: a={a:#014b} b={b:#014b}"));
     }
+    // (`!=` is a method of its own - `PartialEq::ne` may be overridden: it must be the negation)
+    #[allow(clippy::nonminimal_bool)]
+    if (ea != eb) != (a != b) || ea.ne(&eb) != (a != b) {
+        return Err(format!("Effects != Effects: a={a:#014b} b={b:#014b} gives {}", ea != eb));
+    }
     // Style operators
     let st = Style::new().effects(ea);
     if bits((st | eb).get_effects()) != a | b || bits((st - eb).get_effects()) != a & !b {
@@ -187,6 +192,18 @@ fn check_pair(a: u16, b: u16, ea: Effects, eb: Effects) -> Result<(), String> {
     }
     if (st == eb) != (a == b) {
         return Err(format!("Style == Effects: a={a:#014b} b={b:#014b}"));
+    }
+    if (st != eb) != (a != b) || st.ne(&eb) != (a != b) {
+        return Err(format!("Style != Effects: a={a:#014b} b={b:#014b} gives {} although == gives {}", st != eb, st == eb));
+    }
+    let st_b = Style::new().effects(eb);
+    if (st == st_b) != (a == b) || (st != st_b) != (a != b) {
+        return Err(format!("Style ==/!= Style: a={a:#014b} b={b:#014b}"));
+    }
+    // with a colour a style is never equal to a bare effects value, under either operator
+    let colored = st.bg_color(Some(Color::Ansi(AnsiColor::Blue)));
+    if colored == eb || !(colored != eb) {
+        return Err(format!("a style with a colour compares equal to Effects (== {} / != {}): a={a:#014b} b={b:#014b}", colored == eb, colored != eb));
     }
     Ok(())
 }
